@@ -1618,6 +1618,8 @@ impl LsmTree {
         Self::explicit_ref(&self.references, &version2);
         let mut version1 = self.version.lock().unwrap();
         std::mem::swap(&mut *version1, &mut version2);
+        #[cfg(rescrv_blue_verif)]
+        crate::verif::emit("tree.install", [0, 0, 0]);
         self.explicit_unref(&version2);
     }
 
